@@ -126,7 +126,20 @@ def compare(mode, how, pats, ex, fs, ref, res, want_counts=None):
         if a != want or b != want:
             res.add_violation(ID, run.viol('decomposition', dict(inp, name=name), {'match': want}, {'match': a, 'filter': b}))
             return
-    # translate() list lengths:
+    # the bytes twin of the same list decides the probe names the same way (sign of a piece, `!(` exemption)
+    def _enc(x):
+        return x.encode('latin-1') if isinstance(x, str) else None if x is None else [_enc(i) for i in x]
+    for name in PROBES:
+        want = bool(ref.match(name))
+        try:
+            a = match(_enc(name), _enc(pats), flags=fl, exclude=_enc(ex))
+        except Exception as e:  # noqa: BLE001
+            a = type(e).__name__
+        res.n['traces_validated_against_impl'] += 1
+        if a != want:
+            res.add_violation(ID, run.viol('decomposition-bytes', dict(inp, name=name), {'match': want}, {'match': a}))
+            return
+    # translate(): list lengths, and the language of the returned regexes
     if want_counts is not None:
         try:
             pos, neg = mod.translate(pats, flags=fl, exclude=ex)
@@ -138,6 +151,20 @@ def compare(mode, how, pats, ex, fs, ref, res, want_counts=None):
             nn += 1
         if (len(pos), len(neg)) != (np, nn):
             res.add_violation(ID, run.viol('translate-lengths', inp, {'pos': np, 'neg': nn}, {'pos': len(pos), 'neg': len(neg)}))
+            return
+        import re
+        try:
+            tr = _wcmatch.WcRegexp(tuple(re.compile(x) for x in pos), tuple(re.compile(x) for x in neg))
+        except re.error as e:
+            res.add_violation(ID, run.viol('translate-raises', inp, 'regexes compile', {'exc': 're.error', 'msg': str(e)[:60]}))
+            return
+        c2 = langcmp.equal(tr, ref, False)
+        res.n['states'] += c2.states
+        res.n['transitions'] += c2.transitions
+        res.outcomes.add('translate' + (':equal' if c2.witness is None else ':differ'))
+        if c2.witness is not None:
+            res.add_violation(ID, run.viol('translate-decomposition', dict(inp, name=c2.witness), {'match': c2.accs[1]},
+                                           {'match_by_translated_regexes': c2.accs[0]}))
 
 
 def do_lists(mode, res, max_inc, max_exc, sh, ns):
@@ -346,6 +373,20 @@ def replay(v):
             return {'violates': True, 'observed': type(e).__name__}
     match = mod.globmatch if inp['mode'] == 'glob' else mod.fnmatch
     filt = mod.globfilter if inp['mode'] == 'glob' else mod.filter
+    if v['kind'] == 'translate-decomposition':
+        import re
+        pos, neg = mod.translate(inp['patterns'], flags=fl, exclude=inp['exclude'])
+        n = inp['name']
+        got = any(re.compile(x).fullmatch(n) for x in pos) and not any(re.compile(x).fullmatch(n) for x in neg)
+        return {'violates': bool(got) != v['expected']['match'], 'observed': {'match_by_translated_regexes': bool(got)}}
+    if v['kind'] == 'decomposition-bytes':
+        def _enc(x):
+            return x.encode('latin-1') if isinstance(x, str) else None if x is None else [_enc(i) for i in x]
+        try:
+            a = match(_enc(inp['name']), _enc(inp['patterns']), flags=fl, exclude=_enc(inp['exclude']))
+        except Exception as e:  # noqa: BLE001
+            a = type(e).__name__
+        return {'violates': a != v['expected']['match'], 'observed': {'match': a}}
     a = match(inp['name'], inp['patterns'], flags=fl, exclude=inp['exclude'])
     b = bool(filt([inp['name']], inp['patterns'], flags=fl, exclude=inp['exclude']))
     want = v['expected']['match']
